@@ -52,6 +52,7 @@ def cases(tier, seed):
         for log in (False, True):
             yield dict(kind='ellipse', center=center, log=log, tier=tier)
     yield dict(kind='ellipse_types')
+    yield dict(kind='ellipse_shell')
     yield dict(kind='ellipse_refuse')
 
 
@@ -355,6 +356,36 @@ def run_ellipse_types(c, res):
     res.sample({'gate': 'ellipse', 'parameter types': sorted(conv), 'axes': [(341, 300), (300, 341), (190, 50), (255, 256)]})
 
 
+def run_ellipse_shell(c, res):
+    """events a relative 1e-10 and 1e-6 inside and outside the ellipse (far above rounding, far below any sensible tolerance): the gate is
+    the closed ellipse, nothing more"""
+    import FlowCal
+    radii = [0.0, 0.5, 1 - 1e-6, 1 - 1e-10, 1 + 1e-10, 1 + 1e-6, 1.5, 3.0]
+    phis = [0.0, 0.7, 2.0, 3.9, 5.5, math.pi / 2, math.pi]
+    for (cx, cy, a, b, th) in ((0.0, 0.0, 1.0, 1.0, 0.0), (3.0, -2.0, 2.0, 0.5, 0.0), (10.0, 20.0, 4.0, 7.0, 0.6), (500.0, 500.0, 341.0, 300.0, -1.1), (2.5, 2.5, 0.25, 1.75, 2.0)):
+        for log in (False, True):
+            pts, exp = [], []
+            for r in radii:
+                for ph in phis:
+                    u, v = a * r * math.cos(ph), b * r * math.sin(ph)
+                    x = cx + u * math.cos(th) - v * math.sin(th)
+                    y = cy + u * math.sin(th) + v * math.cos(th)
+                    pts.append([10.0 ** (x / 100.0) if log else x, -7.0, 10.0 ** (y / 100.0) if log else y])
+                    exp.append(r <= 1)
+            arr = np.array(pts)
+            kw = dict(center=(cx / 100.0, cy / 100.0) if log else (cx, cy), a=a / 100.0 if log else a, b=b / 100.0 if log else b, theta=th, log=log)
+            what = 'ellipse(events at relative radii %r, %s)' % (radii, ', '.join('%s=%r' % kv for kv in sorted(kw.items())))
+            try:
+                full = FlowCal.gate.ellipse(arr, [0, 2], full_output=True, **kw)
+                short = FlowCal.gate.ellipse(arr, [0, 2], **kw)
+            except Exception as ex:
+                res.violation('ellipse-shell:raises', '%s raised %s: %s' % (what, type(ex).__name__, ex), dict(c))
+                continue
+            if check_gate_output(res, 'ellipse-shell', what, arr, full, short, exp, dict(c)):
+                res.ok('ellipse-shell', True)
+    res.sample({'gate': 'ellipse', 'relative radii': radii, 'directions': len(phis)})
+
+
 def run_ellipse_refuse(res):
     import FlowCal
     # degenerate inputs: no events, one event
@@ -393,6 +424,8 @@ def run_case(c):
             run_ellipse(c, res)
         elif k == 'ellipse_types':
             run_ellipse_types(c, res)
+        elif k == 'ellipse_shell':
+            run_ellipse_shell(c, res)
         else:
             run_ellipse_refuse(res)
     return res
